@@ -80,6 +80,10 @@ void VM<FO>::do_log(int tid, int opi, Op const& op)
     break;
   }
 
+  if (site <= 5)
+  {
+    expected = typed_sanitize(expected); // (a no-op unless the run configures a stricter check_printable_char)
+  }
   Ev& inv = record(EV_LOG_INVOKE, id, op.v[0], level, kind);
   inv.s = expected;
   inv.s2 = std::to_string(site) + "," + std::to_string(fb);
